@@ -839,7 +839,7 @@ func t2c16Tables(c *Ctx) {
 	// (c) guards `oid.Equal(oidXxx<S>)` select the object named after <S>
 	t2c16Arms(c, p, xp)
 	// (e) ecdh curve -> elliptic curve and coordinate split
-	t2c16ECDH(c, p)
+	c16ECDHSSA(c)
 }
 
 func t2c16SigDetails(c *Ctx, p, xp *packages.Package) {
